@@ -6,6 +6,9 @@ C10 - flags are well-typed, shared with tracts, and raised whenever warranted.
 (2) Trigger phrases: 12 phrases inserted at every token boundary of 16 seed descriptions x
     {default, sec_within, both colon modes, every forced layout, ocr_scrub, clean_qq}: the corresponding warning flag
     must be present and one of its context strings must contain the triggering word.
+(3) Re-use: all sequences of up to 3 (quick) / 4 (thorough) tract-level re-parse operations (PLSSDesc.parse_tracts with and without
+    overrides, TractList.parse_tracts, Tract.parse on each tract, PLSSDesc.parse) applied to each of 16 parsed seeds x 3 flag-raising
+    suffixes x 2 modes: the typing / pairing / hand-down invariants must still hold afterwards.
 """
 import warnings
 
@@ -15,10 +18,12 @@ from .. import soup
 ID = 'C10'
 LEVEL = 'model_checking'
 TECHNIQUE = ('token-soup / damage-edit enumeration x parse modes with a typing-pairing-hand-down invariant on every result, plus all '
-             'placements of 12 trigger phrases at every token boundary of 16 seed descriptions x 11 modes')
+             'placements of 12 trigger phrases at every token boundary of 16 seed descriptions x 11 modes, plus all sequences of up to '
+             '3/4 re-parse operations on parsed descriptions (same invariant after every sequence)')
 LEVEL_TEXT = ('The flag invariants (lists of str paired one-to-one with 2-tuples of str, description flags present on every tract, '
               'flawed iff error flag, error TRS implies error flag) are evaluated on every result of the C03 space; the trigger clause '
-              'is decided on every insertion point of every phrase in every seed. Both known historic failures (a tuple stored as a '
+              'is decided on every insertion point of every phrase in every seed; the hand-down invariant is re-evaluated after every sequence of '
+              'up to 3 (quick) / 4 (thorough) of 6 re-parse operations on every seed. Both known historic failures (a tuple stored as a '
               'flag in the second colon pass; a bare str stored as a flag line for an ignored Twp/Rge) need <= 4 tokens.')
 LEVEL_NOTE = ('Trusted: the phrase -> flag table in mc/props/c10.py (taken from pytrs/parser/rgxlib/warnings.py comments). `segment` is '
               'excluded from the trigger clause only, because its documentation says segmenting can cause flags to be missed.')
@@ -46,6 +51,18 @@ TRIGGERS = {
 }
 TRIGGER_MODES = ['default', 'sec_within', 'sec_colon_required', 'sec_colon_cautious', 'cfg:TRS_desc', 'cfg:desc_STR', 'cfg:S_desc_TR',
                  'cfg:TR_desc_S', 'cfg:copy_all', 'ocr_scrub', 'clean_qq']
+# (3) flags stay shared while the objects are re-used: every sequence of up to SEQ_DEPTH tract-level re-parses after the parse
+SEQ_OPS = {
+    'parse_tracts()': lambda d: d.parse_tracts(),
+    'parse_tracts(qq_depth=1)': lambda d: d.parse_tracts(qq_depth=1),
+    'parse_tracts(clean_qq=True)': lambda d: d.parse_tracts(clean_qq=True),
+    'tracts.parse_tracts()': lambda d: d.tracts.parse_tracts(),
+    'each tract.parse()': lambda d: [t.parse() for t in d.tracts],
+    'parse()': lambda d: d.parse(),
+}
+SEQ_DEPTH = {'quick': 3, 'thorough': 4}
+SEQ_PHRASES = ['', 'less and except the wellbore', 'QXZV foo |']    # 'x |': prefix (unused text -> error flag)
+SEQ_MODES = ['default', 'clean_qq']
 _p = None
 
 
@@ -59,12 +76,15 @@ def units(tier):
     us = soup.plss_units(tier)
     for n in range(16):
         us.append({'k': 'trigger', 'seed': n})
+    for n in range(16):
+        us.append({'k': 'seq', 'seed': n})
     return us
 
 
 def space(tier):
     return {'bound': soup.space_text(tier) + f"; {len(TRIGGERS)} trigger phrases x every token boundary of 16 seeds x "
-                     f"{len(TRIGGER_MODES)} modes", 'caps_hit': []}
+                     f"{len(TRIGGER_MODES)} modes; all sequences of <= {SEQ_DEPTH[tier]} of {len(SEQ_OPS)} re-parse operations on 16 seeds x "
+                     f"{len(SEQ_PHRASES)} flag-raising suffixes x {len(SEQ_MODES)} modes", 'caps_hit': []}
 
 
 def check_flags(obj):
@@ -170,9 +190,63 @@ def trigger_case(acc, seed_n, pos, phrase, mname):
     return True
 
 
+def handed_down(d):
+    """-> (class, detail) of the first broken invariant on the description or its tracts, or None"""
+    bad = check_flags(d)
+    if bad:
+        return bad[0], 'desc: ' + bad[1]
+    for i, t in enumerate(d.tracts):
+        bad = check_flags(t)
+        if bad:
+            return bad[0], f"tract {i}: " + bad[1]
+        for fa in ('w_flags', 'e_flags', 'w_flag_lines', 'e_flag_lines'):
+            missing = [f for f in getattr(d, fa) if f not in getattr(t, fa)]
+            if missing:
+                return 'flag_not_on_tract', f"{fa} of the description missing on tract {i}: {missing!r}"
+    return None
+
+
+def seq_case(acc, seed_n, phrase, mname, ops):
+    layout, si, seed = soup.seeds()[seed_n]
+    text = (phrase[:-1] + seed) if phrase.endswith('|') else (seed + ' ' + phrase).strip()
+    key = f"seq|{mname}|{text}|{' ; '.join(ops)}"
+    case = {'k': 'seq', 'seed': seed_n, 'phrase': phrase, 'mode': mname, 'ops': list(ops), 'text': text}
+    try:
+        d = soup.parse(_p, text, soup.mode_by_name(mname))
+        for name in ops:
+            SEQ_OPS[name](d)
+    except Exception:  # noqa
+        acc.case(key, 'EXC', nontrivial=False)
+        acc.extra['exceptions_left_to_C03'] += 1
+        return
+    acc.case(key, [sorted(map(str, d.flags))] + [sorted(map(str, t.flags)) for t in d.tracts], nontrivial=bool(d.flags))
+    acc.states += 1
+    acc.transitions += len(ops)
+    bad = handed_down(d)
+    if bad:
+        acc.violation(bad[0], f"C10:seq:{bad[0]}:{' ; '.join(ops)}", case, got=bad[1], note='after the operation sequence on a parsed description')
+        return
+    if d.flags and d.tracts:
+        acc.guard('seq_flags_checked')
+
+
+def seq_histories(depth):
+    out = [()]
+    frontier = [()]
+    for _ in range(depth):
+        frontier = [h + (o,) for h in frontier for o in SEQ_OPS]
+        out += frontier
+    return out[1:]
+
+
 def run_unit(unit, tier):
     acc = Acc()
-    if unit['k'] == 'trigger':
+    if unit['k'] == 'seq':
+        for hist in seq_histories(SEQ_DEPTH[tier]):
+            for phrase in SEQ_PHRASES:
+                for mname in SEQ_MODES:
+                    seq_case(acc, unit['seed'], phrase, mname, hist)
+    elif unit['k'] == 'trigger':
         for phrase in TRIGGERS:
             for mname in TRIGGER_MODES:
                 pos = 0
@@ -186,7 +260,9 @@ def run_unit(unit, tier):
 
 def replay(case):
     acc = Acc()
-    if case.get('k') == 'trigger':
+    if case.get('k') == 'seq':
+        seq_case(acc, case['seed'], case['phrase'], case['mode'], tuple(case['ops']))
+    elif case.get('k') == 'trigger':
         trigger_case(acc, case['seed'], case['pos'], case['phrase'], case['mode'])
     else:
         judge(acc, case['text'], soup.mode_by_name(case['mode']))
@@ -196,7 +272,7 @@ def replay(case):
 def guards(info):
     g = info['guards']
     out = []
-    for name in ('error_flag_seen', 'warning_flag_seen', 'tract_flag_seen', 'trigger_ok'):
+    for name in ('error_flag_seen', 'warning_flag_seen', 'tract_flag_seen', 'trigger_ok', 'seq_flags_checked'):
         if not g.get(name):
             out.append(f"never observed: {name}")
     return out
